@@ -2,8 +2,8 @@
 
 Regenerated on every run from /repo's working tree (ZCV_REPO).  DATA: everything the model's data depends on is read
 from the imported modules (compiled patterns, tables, bounds) or from the AST of the function that holds a literal.
-CODE: `CodeDatatypes` / `CodeSubstitution` are the translation of the Python source of the small pure string functions
-(datatypes.py, substitution.py) into Lean definitions by `pytrans.py` (a typed compiler for a subset of Python, see its
+CODE: `CodeDatatypes` / `CodeSubstitution` / `CodeCmdline` / `CodeUrl` / `CodeCfgparser` are the translation of the Python source of the
+small pure string functions (datatypes.py, substitution.py, cmdline.py, url.py; the pure prefixes of two cfgparser.py methods) into Lean definitions by `pytrans.py` (a typed compiler for a subset of Python, see its
 docstring and DESIGN §13); `ZCV/Lemmas/CodeEq*.lean` prove them equal to the hand-written models.
 Anything outside the supported subset raises Untranslatable, which the checks treat as a broken tie (DESIGN §4),
 never as a pass; the file concerned is then left as it was.
